@@ -101,6 +101,52 @@ theorem powFrac_q (r w : Nat) (e : Int) (hr : 0 < r) :
     refine ⟨?_, Nat.pow_pos hr⟩
     push_cast; rw [zpow_neg, zpow_natCast]; ring
 
+/-- **`bellerophon` never panics** for a radix whose tables pass `bellCheck` (the remainder by `step`, the three
+checked table indices) -/
+theorem bellPrepare_no_panic {F : FTy} {r : Nat} {P : Powers} (hc : BellFacts r P) (n : Num) :
+    bellPrepare F P n ≠ .panic := by
+  have hstep := hc.step_pos
+  unfold bellPrepare
+  simp only []
+  split
+  · simp
+  · split
+    · simp
+    · rw [if_neg (show ¬ P.step = 0 by omega)]
+      split
+      · simp
+      · rename_i hE
+        split
+        · simp
+        · rename_i hli
+          generalize hEv : wrapI32 (wrapI32 n.exponent + P.bias) = E at *
+          have hsi : (Int.tmod E P.step).toNat < P.step.toNat := by
+            have h1 := Int.tmod_lt_of_pos E hstep
+            have h2 := Int.tmod_nonneg P.step (show 0 ≤ E by omega)
+            omega
+          have hli' : (Int.tdiv E P.step).toNat < P.large.size := by omega
+          obtain ⟨hsI, _, sm, ns, hgs, _⟩ := small_facts (hc.small _ hsi)
+          obtain ⟨b, ebL, hgl, _⟩ := large_facts (hc.large _ hli')
+          simp only [hsI, hgs, hgl]
+          unfold scaleLarge
+          simp
+
+theorem bellerophon_no_panic {F : FTy} {r : Nat} {P : Powers} (hc : BellFacts r P) (n : Num) (lossy : Bool) :
+    bellerophon F P n lossy ≠ .panic := by
+  unfold bellerophon
+  have := bellPrepare_no_panic (F := F) hc n
+  split
+  · simp
+  · simp
+  · rename_i h; exact absurd h this
+  · unfold bellFinish
+    simp only []
+    split
+    · simp
+    · split
+      · simp
+      · split <;> simp
+
 /-- the true value of the literal: `x = w·r^e` for an untruncated mantissa, `x ∈ [w, w+1)·r^e` for a
 truncated one (cross-multiplied) -/
 def TrueValue (r : Nat) (n : Num) (num den : Nat) : Prop :=
